@@ -134,12 +134,30 @@ Proof. intros ys H. destruct (affine_sums c s ys x H) as [E1 E2].
   unfold ols_slope. rewrite E1, E2. unfold ols_det in *. field. lra. Qed.
 
 (* ------------------------------------------------------------------ the clamp of the generated log2_regression *)
-Lemma regression_clamped l : 1 / 2 <= log2_regression l log2_regression_default_max_val.
-Proof. unfold log2_regression, log2_regression_default_max_val. eapply Rle_trans; [|apply Rmax_l]. lra. Qed.
+(* wave 7 (audit-4 B5): the generated definition matches on log2_slope_np: Some slope when every regressed entry is a positive
+   real, None (numpy: x = nan, max(max_val, nan) = max_val) otherwise *)
+Lemma all_positive_intro ys : Forall (fun y => 0 < y) ys -> all_positive ys = true.
+Proof. unfold all_positive. induction 1 as [|y r Hy _ IH]; [reflexivity|]. cbn [forallb]. rewrite IH, Rltb_intro by exact Hy. reflexivity. Qed.
+Lemma all_positive_elim ys : all_positive ys = true -> Forall (fun y => 0 < y) ys.
+Proof. unfold all_positive. induction ys as [|y r IH]; [constructor|]. cbn [forallb]. intros H. apply andb_prop in H. destruct H as [H1 H2].
+  constructor; [now apply Rltb_true|now apply IH]. Qed.
+Lemma not_all_positive_intro ys : Exists (fun y => y <= 0) ys -> all_positive ys = false.
+Proof. unfold all_positive. induction 1 as [y r Hy|y r _ IH]; cbn [forallb].
+  - replace (Rltb 0 y) with false; [reflexivity|]. symmetry. now apply Rltb_false.
+  - rewrite IH. apply andb_false_r. Qed.
 
-Lemma regression_is_clamped_slope l :
+Lemma regression_clamped l : 1 / 2 <= log2_regression l log2_regression_default_max_val.
+Proof. unfold log2_regression, log2_regression_default_max_val. destruct (log2_slope_np (tl l)); [|lra].
+  eapply Rle_trans; [|apply Rmax_l]. lra. Qed.
+
+(* every regressed entry positive: the clamp of minus the least-squares slope *)
+Lemma regression_is_clamped_slope l : all_positive (tl l) = true ->
   log2_regression l log2_regression_default_max_val = Rmax (1 / 2) (- log2_slope (tl l)).
-Proof. unfold log2_regression, log2_regression_default_max_val. reflexivity. Qed.
+Proof. intros H. unfold log2_regression, log2_slope_np, log2_regression_default_max_val. rewrite H. reflexivity. Qed.
+
+(* the nan path: one regressed entry (index >= 1 of the array) is zero / negative -> the clamp value 1/2, whatever the others are *)
+Lemma regression_nan_path l : Exists (fun y => y <= 0) (tl l) -> log2_regression l log2_regression_default_max_val = 1 / 2.
+Proof. intros H. unfold log2_regression, log2_slope_np, log2_regression_default_max_val. rewrite (not_all_positive_intro _ H). reflexivity. Qed.
 
 Lemma Rpower2_gt1 a : 0 < a -> 1 < Rpower 2 a.
 Proof. intros H. rewrite <- (Rpower_O 2) by lra. apply Rpower_lt; lra. Qed.
@@ -153,8 +171,11 @@ Proof. pose proof (regression_clamped l) as H. split; [|apply Rpower2_gt1; lra].
 
 (* a configured rate is used as it is, a missing one is regressed in every pass *)
 Lemma alpha_of_pass_spec cfg prev ml :
-  alpha_of_pass cfg prev ml = match cfg with None => Rmax (1 / 2) (- log2_slope (tl ml)) | Some _ => prev end.
-Proof. destruct cfg; [reflexivity|]. apply regression_is_clamped_slope. Qed.
+  alpha_of_pass cfg prev ml = match cfg with
+                              | None => if all_positive (tl ml) then Rmax (1 / 2) (- log2_slope (tl ml)) else 1 / 2
+                              | Some _ => prev end.
+Proof. destruct cfg; [reflexivity|]. unfold alpha_of_pass. destruct (all_positive (tl ml)) eqn:E; [now apply regression_is_clamped_slope|].
+  unfold log2_regression, log2_slope_np, log2_regression_default_max_val. rewrite E. reflexivity. Qed.
 
 (* C06_bias_plus_variance without a hypothesis on alpha: the engine regresses it (configured rate None) *)
 Theorem bias_plus_variance_regressed prev ml rmse : 0 <= rmse -> Forall (fun m => 0 <= m) ml ->
@@ -178,7 +199,10 @@ Proof. intros Hm. induction n as [|n IH]; intros x; [reflexivity|].
 Theorem regression_recovers_geometric_rate m0 m a n : 0 < m -> (2 <= n)%nat ->
   let ml := m0 :: map (fun p => m * Rpower 2 (- a * fst p)) (points 1 (repeat 0 n)) in
   log2_regression ml log2_regression_default_max_val = Rmax (1 / 2) a.
-Proof. intros Hm Hn ml. rewrite regression_is_clamped_slope. f_equal. unfold ml. cbn [tl]. unfold log2_slope.
+Proof. intros Hm Hn ml. rewrite regression_is_clamped_slope.
+  2:{ apply all_positive_intro. unfold ml. cbn [tl]. apply Forall_forall. intros y Hy. apply in_map_iff in Hy. destruct Hy as [p [<- _]].
+      apply Rmult_lt_0_compat; [exact Hm|unfold Rpower; apply exp_pos]. }
+  f_equal. unfold ml. cbn [tl]. unfold log2_slope.
   pose proof (geometric_points m a Hm n 1) as G.
   destruct n as [|[|n]]; [lia|lia|].
   set (ys := map log2R (map (fun p => m * Rpower 2 (- a * fst p)) (points 1 (repeat 0 (S (S n)))))) in *.
@@ -220,5 +244,21 @@ Proof. assert (E : alpha_of_pass None 0 ex_ml = 2).
     repeat apply Rmax_lub; unfold Rpower; interval. Qed.
 
 (* the single-level "regression" is half the single log, hence depends on the unit of the payoff *)
-Lemma single_level_rate m0 m1 : log2_regression [m0; m1] log2_regression_default_max_val = Rmax (1 / 2) (- (log2R m1 / 2)).
-Proof. rewrite regression_is_clamped_slope. cbn [tl]. unfold log2_slope. cbn [map points lstsq fst]. f_equal. f_equal. field. Qed.
+Lemma single_level_rate m0 m1 : 0 < m1 -> log2_regression [m0; m1] log2_regression_default_max_val = Rmax (1 / 2) (- (log2R m1 / 2)).
+Proof. intros H1. rewrite regression_is_clamped_slope by (apply all_positive_intro; cbn [tl]; repeat constructor; exact H1).
+  cbn [tl]. unfold log2_slope. cbn [map points lstsq fst]. f_equal. f_equal. field. Qed.
+
+(* audit-4 B5 witness: level 1 has a zero mean (levels 1, 2 are not touched by the work-around).  numpy: log2 -> -inf, lstsq -> nan,
+   max(0.5, nan) = 0.5; the model agrees (nan path), and with rmse = 0.2 (the double) the bias test FAILS, as in Python
+   (bias estimate 0.427 > 0.1).  Before wave 7 the model said rate 1.5 (ln 0 = 0) and passed the test. *)
+Definition nan_ml : list R := [3; 0; 1 / 4; 1 / 8].
+Lemma nan_path_ex : forall prev, alpha_of_pass None prev nan_ml = 1 / 2
+  /\ Forall (fun m => 0 <= m) nan_ml
+  /\ criteria_giles (alpha_of_pass None prev nan_ml) nan_ml (3602879701896397 / 18014398509481984) = false.
+Proof. intros prev. assert (E : alpha_of_pass None prev nan_ml = 1 / 2).
+  { unfold alpha_of_pass, nan_ml. apply regression_nan_path. cbn [tl]. apply Exists_cons_hd. lra. }
+  split; [exact E|]. split; [unfold nan_ml; repeat constructor; lra|]. rewrite E. unfold nan_ml.
+  apply Bool.not_true_is_false. intro H. apply criteria_giles_spec in H. revert H. apply Rlt_not_le. unfold giles_rem; cbn [length Nat.sub Nat.leb nth].
+  replace (Rmax (1/8) ((1/4) / Rpower 2 (1/2))) with ((1/4) / Rpower 2 (1/2)) by (symmetry; apply Rmax_right; unfold Rpower; interval).
+  replace (Rmax ((1/4) / Rpower 2 (1/2)) (0 / Rpower 2 (2 * (1/2)))) with ((1/4) / Rpower 2 (1/2)) by (symmetry; apply Rmax_left; unfold Rpower; interval).
+  unfold Rpower; interval. Qed.
